@@ -75,7 +75,8 @@ def gen_cases(spec, P, rng, n_dirs, thorough, wellformed=False):
                 kind = rng.choice(["req", "req", "req", "req", "unknown", "noid", "nooffset", "nofile", "notlv"]) if planned is None else "req"
                 fid = rng.choice(ids)
                 n = len(files[fid])
-                off = rng.choice([0, 1, max(0, n - 1), n, n + 1, n + 1000, rng.randint(0, n + 10), (rng.randint(0, n) // block) * block])
+                off = rng.choice([0, 1, max(0, n - 1), n, n + 1, n + 1000, rng.randint(0, n + 10), (rng.randint(0, n) // block) * block,
+                                  rng.choice([0x7fffffff, 0x80000000, 0xffffffff, 0xffffffff - block, 0xffffffff - block + 1, 0x100000000 - rng.randint(1, 70000)])])
                 if planned is not None:
                     fid, off = planned
                 if kind == "unknown":
@@ -141,7 +142,7 @@ def run(ctx, out):
             out.oracle_failures.append({"op": o[:400], "observed": "…" + r[max(0, i - 60):i + 200], "expected": "…" + w[max(0, i - 60):i + 200], "key": o[:200],
                                         "what": "firmware upload: announced list is not exactly the recognised files with their sizes / a data request is not answered with that id, offset and the file's bytes / a bad request does not end the upload with an error"})
     out.rule = (f"{n_dirs} payload directories (any subset of the {len(paths)} recognised paths plus unrelated files, a quarter of the entries symbolic links to the payload, sizes 0..70000 (thorough: 200 KiB), deterministic content) x block sizes {{1,7,100,1024,32768,random, 110..132, 238..260 (BER length boundaries of the nested containers)}} x request scripts "
-                "(0..6 requests: valid at offsets 0/1/size-1/size/size+1/beyond/random/block-aligned, repeated and overlapping, unknown id, missing id / offset / file / TLV) ending in completion, abort or end of connection. "
+                "(0..6 requests: valid at offsets 0/1/size-1/size/size+1/beyond/random/block-aligned/around 2^31 and 2^32 - block, repeated and overlapping, unknown id, missing id / offset / file / TLV) ending in completion, abort or end of connection. "
                 "The real WriteFile::into_stream against the scripted terminal; expected announcement and WriteData packets assembled by the reference encoder from the files' bytes. implementation = model = expectation")
     out.samples = [ops[1][:300], {"op": ops[-1][:200], "impl": impl[-1][:300]}]
 
